@@ -64,8 +64,8 @@ Definition count_m1 (dst : list Z) : nat := length (filter (fun d => d =? -1) ds
 Lemma length_known dst : (length dst - length (np_known dst))%nat = count_m1 dst
   /\ (length (np_known dst) <= length dst)%nat.
 Proof.
-  unfold np_known, count_m1. induction dst as [|d t [IH1 IH2]]; simpl; [split; reflexivity|].
-  destruct (d =? -1); simpl; split; lia.
+  unfold np_known, count_m1. induction dst as [|d t [IH1 IH2]]; [split; reflexivity|].
+  cbn [filter]. destruct (d =? -1); cbn [negb length]; split; lia.
 Qed.
 
 Lemma cnr_fold dst : forall c n,
@@ -119,6 +119,13 @@ Proof.
   - inversion Hp; subst. constructor; auto.
 Qed.
 
+Lemma forallb_false_exists {A} (f : A -> bool) l : forallb f l = false -> exists x, In x l /\ f x = false.
+Proof.
+  induction l as [|a l IH]; simpl; [discriminate|]. intros H. apply andb_false_iff in H as [H|H].
+  - exists a. auto.
+  - destruct (IH H) as [x [Hx Hf]]. exists x. auto.
+Qed.
+
 Lemma forallb_pos l : forallb (fun d => 1 <=? d) l = true <-> pos l.
 Proof. exact (posb_pos l). Qed.
 
@@ -169,16 +176,11 @@ Proof.
     + replace (1 <? Z.of_nat 1) with false by reflexivity. replace (K =? 0) with false by lia.
       replace (Z.of_nat 1 =? 0) with false by reflexivity. cbn [andb].
       destruct (prod src mod K =? 0); reflexivity.
-    + replace (1 <? Z.of_nat (S (S c))) with true by lia. reflexivity.
+    + destruct (Z.ltb_spec 1 (Z.of_nat (S (S c)))) as [_|Hc]; [reflexivity | lia].
   - assert (HX : 1 <? Z.of_nat (count_m1 dst) = true \/ existsb (fun d => negb (d =? -1) && (d <? 1)) dst = true).
-    { right. apply existsb_exists.
-      assert (HF : ~ (forall x, In x (np_known dst) -> (1 <=? x) = true)) by (rewrite <- forallb_forall; congruence).
-      destruct (existsb (fun d => negb (1 <=? d)) (np_known dst)) eqn:Ex.
-      - apply existsb_exists in Ex as [x [Hx Hc]]. unfold np_known in Hx. apply filter_In in Hx as [Hx1 Hx2].
-        exists x. split; [assumption|]. rewrite Hx2. simpl. lia.
-      - exfalso. apply HF. intros x Hx. destruct (1 <=? x) eqn:E; [reflexivity|].
-        assert (existsb (fun d => negb (1 <=? d)) (np_known dst) = true) by (apply existsb_exists; exists x; rewrite E; auto).
-        congruence. }
+    { right. apply existsb_exists. apply forallb_false_exists in F as [x [Hx Hc]].
+      unfold np_known in Hx. apply filter_In in Hx as [Hx1 Hx2].
+      exists x. split; [assumption|]. rewrite Hx2. simpl. lia. }
     destruct (1 <? Z.of_nat (count_m1 dst)); [reflexivity|]. destruct HX as [HX|HX]; [discriminate|]. now rewrite HX.
 Qed.
 
@@ -226,4 +228,842 @@ Proof.
   assert (E : compute_offset i (compute_strides s) = off i (strides s)) by now rewrite compute_offset_eq, compute_strides_eq.
   rewrite off_unrav by (auto; rewrite E; lia).
   now apply unrav_off.
+Qed.
+
+(* ===================================================================== scatter / transpose *)
+
+Section ScatterLoop.
+Variable posf : nat -> nat.
+Variable val : nat -> Z.
+Let step := fun (r : list Z) (k : nat) => upd r (posf k) (val k).
+
+Lemma sloop_length ks : forall ret, length (fold_left step ks ret) = length ret.
+Proof. induction ks as [|a ks IH]; intros ret; simpl; [reflexivity|]. rewrite IH. apply upd_length. Qed.
+
+Lemma sloop_untouched n m ks : forall ret, length ret = n ->
+  (forall k, In k ks -> (posf k < n)%nat /\ posf k <> m) ->
+  nth m (fold_left step ks ret) 0 = nth m ret 0.
+Proof.
+  induction ks as [|a ks IH]; intros ret Hl H; simpl; [reflexivity|].
+  rewrite IH; [| unfold step; now rewrite upd_length | intros k Hk; apply H; now right].
+  destruct (H a (or_introl eq_refl)) as [Ha Hm]. unfold step.
+  rewrite nth_upd by lia. destruct (Nat.eqb_spec m (posf a)); [congruence | reflexivity].
+Qed.
+
+Lemma sloop_spec n ks : forall ret, length ret = n ->
+  (forall k, In k ks -> (posf k < n)%nat) -> NoDup ks ->
+  (forall j k, In j ks -> In k ks -> posf j = posf k -> j = k) ->
+  forall k, In k ks -> nth (posf k) (fold_left step ks ret) 0 = val k.
+Proof.
+  induction ks as [|a ks IH]; intros ret Hl Hr Hnd Hinj k Hk; [contradiction|].
+  apply NoDup_cons_iff in Hnd as [Hna Hnd]. simpl.
+  destruct Hk as [->|Hk].
+  - rewrite (sloop_untouched n); [| unfold step; now rewrite upd_length |].
+    + unfold step. rewrite nth_upd by (rewrite Hl; apply Hr; now left). now rewrite Nat.eqb_refl.
+    + intros j Hj. split; [apply Hr; now right|]. intros E. apply Hna.
+      rewrite <- (Hinj j k); auto; [now right | now left].
+  - apply IH; auto.
+    + unfold step. now rewrite upd_length.
+    + intros j Hj. apply Hr. now right.
+    + intros i j Hi Hj. apply Hinj; now right.
+Qed.
+End ScatterLoop.
+
+Lemma fold_left_ext_inv {A B} (P : A -> Prop) (f g : A -> B -> A) l : forall a,
+  P a -> (forall a b, P a -> In b l -> f a b = g a b /\ P (f a b)) -> fold_left f l a = fold_left g l a.
+Proof.
+  induction l as [|b l IH]; intros a Ha H; simpl; [reflexivity|].
+  destruct (H a b Ha (or_introl eq_refl)) as [E HP]. rewrite <- E. apply IH; [assumption|].
+  intros a' b' Ha' Hb'. apply H; [assumption | now right].
+Qed.
+
+Definition posf (p : list Z) (n : nat) (k : nat) : nat := Z.to_nat (at_pos (Z.of_nat n) (nth k p 0)).
+
+Lemma scatter_eq v p : scatter v p =
+  fold_left (fun r k => upd r (posf p (length v) k) (nth k v 0)) (seq 0 (length p)) (repeat 0 (length v)).
+Proof.
+  unfold scatter. apply (fold_left_ext_inv (fun r => length r = length v)).
+  - apply repeat_length.
+  - intros r k Hr _. split; [unfold posf, zlen; now rewrite Hr | now rewrite upd_length].
+Qed.
+
+Lemma scatter_length v p : length (scatter v p) = length v.
+Proof. rewrite scatter_eq, sloop_length. apply repeat_length. Qed.
+
+(* [q] lists 0..n-1 without repetition *)
+Definition perm (n : nat) (q : list Z) : Prop :=
+  length q = n /\ (forall k, (k < n)%nat -> 0 <= nth k q 0 < Z.of_nat n) /\ NoDup q.
+
+Lemma nodupb_NoDup l : nodupb l = true <-> NoDup l.
+Proof.
+  induction l as [|x t IH]; simpl; [split; [constructor | reflexivity]|].
+  rewrite andb_true_iff, negb_true_iff, IH, NoDup_cons_iff.
+  assert (E : existsb (Z.eqb x) t = false <-> ~ In x t).
+  { split.
+    - intros H Hin. assert (existsb (Z.eqb x) t = true) by (apply existsb_exists; exists x; split; [assumption | apply Z.eqb_refl]). congruence.
+    - intros H. apply Bool.not_true_is_false. intros Hex. apply existsb_exists in Hex as [y [Hy E]].
+      apply Z.eqb_eq in E. subst. contradiction. }
+  now rewrite E.
+Qed.
+
+Lemma is_permb_perm n q : is_permb n q = true <-> perm n q.
+Proof.
+  unfold is_permb, perm. rewrite !andb_true_iff, Nat.eqb_eq, nodupb_NoDup, forallb_forall. split.
+  - intros [[Hl Hr] Hn]. split; [assumption|]. split; [|assumption].
+    intros k Hk. assert (Hin : In (nth k q 0) q) by (apply nth_In; lia). specialize (Hr _ Hin). lia.
+  - intros [Hl [Hr Hn]]. split; [split; [assumption|] | assumption].
+    intros x Hx. apply (In_nth _ _ 0) in Hx as [k [Hk <-]]. specialize (Hr k ltac:(lia)). lia.
+Qed.
+
+Lemma perm_inj n q : perm n q -> forall j k, (j < n)%nat -> (k < n)%nat -> nth j q 0 = nth k q 0 -> j = k.
+Proof. intros [Hl [_ Hn]] j k Hj Hk. rewrite (NoDup_nth q 0) in Hn. apply Hn; lia. Qed.
+
+Lemma find_pos_spec m q : In m q -> (find_pos m q < length q)%nat /\ nth (find_pos m q) q 0 = m.
+Proof.
+  induction q as [|x t IH]; simpl; [contradiction|]. intros H.
+  destruct (Z.eqb_spec x m) as [->|Hne]; [split; [lia | reflexivity]|].
+  destruct H as [H|H]; [contradiction|]. destruct (IH H). split; [lia | assumption].
+Qed.
+
+Lemma perm_surj n q : perm n q -> forall m, (m < n)%nat ->
+  (find_pos (Z.of_nat m) q < n)%nat /\ nth (find_pos (Z.of_nat m) q) q 0 = Z.of_nat m.
+Proof.
+  intros [Hl [Hr Hn]] m Hm.
+  assert (Hin : In (Z.of_nat m) q).
+  { apply (NoDup_length_incl Hn (l' := zs n)).
+    - rewrite zs_length. lia.
+    - intros x Hx. apply (In_nth _ _ 0) in Hx as [k [Hk <-]]. apply in_zs. apply Hr. lia.
+    - apply in_zs. lia. }
+  destruct (find_pos_spec _ _ Hin). split; [lia | assumption].
+Qed.
+
+Lemma find_pos_nth n q k : perm n q -> (k < n)%nat -> find_pos (nth k q 0) q = k.
+Proof.
+  intros Hp Hk. destruct Hp as [Hl [Hr Hn]].
+  assert (Hin : In (nth k q 0) q) by (apply nth_In; lia).
+  destruct (find_pos_spec _ _ Hin) as [H1 H2].
+  apply (perm_inj n q (conj Hl (conj Hr Hn))); [lia | assumption | assumption].
+Qed.
+
+(* position actually written by scatter for an in-range signed axis *)
+Lemma at_pos_norm n a : at_pos n a = norm_ax n a.
+Proof. unfold at_pos, norm_ax. destruct (a <? 0); lia. Qed.
+
+Definition axes_perm (n : nat) (p : list Z) : Prop := perm n (map (norm_ax (Z.of_nat n)) p).
+
+Lemma np_axes_ok_perm n p : np_axes_ok n p = true -> axes_perm n p.
+Proof. unfold np_axes_ok. rewrite andb_true_iff. intros [_ H]. now apply is_permb_perm. Qed.
+
+Lemma axes_perm_length n p : axes_perm n p -> length p = n.
+Proof. intros [Hl _]. now rewrite map_length in Hl. Qed.
+
+Lemma nth_norm n p k : (k < length p)%nat -> nth k (map (norm_ax n) p) 0 = norm_ax n (nth k p 0).
+Proof.
+  intros Hk. rewrite (nth_indep _ 0 (norm_ax n 0)) by now rewrite map_length. apply map_nth.
+Qed.
+
+(* the cell q_k of scatter v p holds v_k *)
+Lemma scatter_nth n v p : axes_perm n p -> length v = n -> forall k, (k < n)%nat ->
+  nth (Z.to_nat (nth k (map (norm_ax (Z.of_nat n)) p) 0)) (scatter v p) 0 = nth k v 0.
+Proof.
+  intros Hp Hv k Hk. pose proof (axes_perm_length _ _ Hp) as Hlp.
+  rewrite scatter_eq, Hv, Hlp.
+  assert (Hpf : forall j, (j < n)%nat -> posf p n j = Z.to_nat (nth j (map (norm_ax (Z.of_nat n)) p) 0)).
+  { intros j Hj. unfold posf. rewrite nth_norm by lia. now rewrite at_pos_norm. }
+  rewrite <- Hpf by assumption.
+  apply (sloop_spec (posf p n) (fun k => nth k v 0) n).
+  - apply repeat_length.
+  - intros j Hj. apply in_seq in Hj. rewrite Hpf by lia. destruct Hp as [_ [Hr _]]. specialize (Hr j ltac:(lia)). lia.
+  - apply seq_NoDup.
+  - intros i j Hi Hj E. apply in_seq in Hi, Hj. rewrite !Hpf in E by lia.
+    apply (perm_inj n _ Hp); try lia. destruct Hp as [_ [Hr _]].
+    pose proof (Hr i ltac:(lia)). pose proof (Hr j ltac:(lia)). lia.
+  - apply in_seq. lia.
+Qed.
+
+(* value of scatter at an arbitrary cell *)
+Lemma scatter_at n v p : axes_perm n p -> length v = n -> forall m, (m < n)%nat ->
+  nth m (scatter v p) 0 = nth (find_pos (Z.of_nat m) (map (norm_ax (Z.of_nat n)) p)) v 0.
+Proof.
+  intros Hp Hv m Hm. destruct (perm_surj n _ Hp m Hm) as [Hk Hq].
+  rewrite <- (scatter_nth n v p Hp Hv _ Hk), Hq. f_equal. lia.
+Qed.
+
+(* ---- transpose: shape ---- *)
+Lemma shape_transpose_np s axes : (match axes with Some p => length p = length s | None => True end) ->
+  shape_transpose s axes = np_transpose_shape s axes.
+Proof.
+  destruct axes as [p|]; simpl; intros Hl; [|apply reverse_eq_rev].
+  symmetry. apply map_seq_nth_ext; [now rewrite map_length|]. intros k Hk.
+  rewrite (nth_indep _ 0 (znth s (norm_ax (zlen s) 0))) by (rewrite map_length; lia).
+  rewrite (map_nth (fun a => znth s (norm_ax (zlen s) a))). unfold at_neg. now rewrite at_pos_norm.
+Qed.
+
+Lemma nth_shape_transpose s p k : length p = length s -> (k < length s)%nat ->
+  nth k (shape_transpose s (Some p)) 0 = znth s (norm_ax (zlen s) (nth k p 0)).
+Proof. intros Hl Hk. simpl. rewrite nth_map_seq by assumption. unfold at_neg. now rewrite at_pos_norm. Qed.
+
+(* ---- transpose: element ---- *)
+Lemma transpose_index_np axes i : np_transpose_ok (length i) axes = true ->
+  transpose_index axes i = np_transpose_index axes i.
+Proof.
+  destruct axes as [p|]; simpl; intros Hok; [|apply reverse_eq_rev].
+  apply np_axes_ok_perm in Hok. unfold zs. rewrite map_map.
+  apply map_seq_nth_ext; [apply scatter_length|].
+  intros m Hm. unfold zlen. now apply scatter_at.
+Qed.
+
+(* ---- transpose: the source index is in bounds ---- *)
+Lemma transpose_inb axes s i : np_transpose_ok (length s) axes = true ->
+  inb i (shape_transpose s axes) -> inb (transpose_index axes i) s.
+Proof.
+  destruct axes as [p|]; simpl; intros Hok Hi.
+  - apply np_axes_ok_perm in Hok. pose proof (axes_perm_length _ _ Hok) as Hlp.
+    apply inb_nth in Hi as [Hli Hin]. rewrite map_length, seq_length in Hli, Hin.
+    apply inb_nth. split; [now rewrite scatter_length|].
+    intros m Hm. destruct (perm_surj _ _ Hok m Hm) as [Hk Hq].
+    set (k := find_pos (Z.of_nat m) (map (norm_ax (Z.of_nat (length s))) p)) in *.
+    rewrite (scatter_at (length s) i p Hok Hli m Hm). fold k.
+    specialize (Hin k Hk). rewrite nth_map_seq in Hin by assumption.
+    unfold at_neg in Hin. rewrite at_pos_norm in Hin. unfold zlen in Hin.
+    rewrite <- nth_norm in Hin by lia. rewrite Hq in Hin. unfold znth in Hin.
+    now rewrite Nat2Z.id in Hin.
+  - rewrite reverse_eq_rev in *. rewrite <- (rev_involutive s). now apply inb_rev.
+Qed.
+
+(* ---- transpose: a bijection between the two index sets ---- *)
+Definition gather_q (q : list Z) (j : list Z) : list Z :=
+  map (fun k => nth (Z.to_nat (nth k q 0)) j 0) (seq 0 (length q)).
+
+Lemma scatter_gather n p j : axes_perm n p -> length j = n ->
+  scatter (gather_q (map (norm_ax (Z.of_nat n)) p) j) p = j.
+Proof.
+  intros Hp Hj. set (q := map (norm_ax (Z.of_nat n)) p).
+  assert (Hlq : length q = n) by apply Hp.
+  assert (Hlg : length (gather_q q j) = n) by (unfold gather_q; now rewrite map_length, seq_length).
+  apply nth_ext with (d := 0) (d' := 0); [now rewrite scatter_length, Hlg|].
+  intros m Hm. rewrite scatter_length, Hlg in Hm.
+  destruct (perm_surj n _ Hp m Hm) as [Hk Hq]. fold q in Hk, Hq.
+  rewrite (scatter_at n _ p Hp Hlg m Hm). fold q. unfold gather_q.
+  rewrite nth_map_seq by lia. rewrite Hq. now rewrite Nat2Z.id.
+Qed.
+
+Lemma gather_scatter n p i : axes_perm n p -> length i = n ->
+  gather_q (map (norm_ax (Z.of_nat n)) p) (scatter i p) = i.
+Proof.
+  intros Hp Hi. set (q := map (norm_ax (Z.of_nat n)) p).
+  assert (Hlq : length q = n) by apply Hp.
+  symmetry. unfold gather_q. rewrite Hlq. apply map_seq_nth_ext; [assumption|].
+  intros k Hk. symmetry. now apply scatter_nth.
+Qed.
+
+Lemma transpose_bijection_axes s p : axes_perm (length s) p ->
+  let d := shape_transpose s (Some p) in
+  (forall i i', length i = length s -> length i' = length s -> scatter i p = scatter i' p -> i = i')
+  /\ (forall j, inb j s -> exists i, inb i d /\ scatter i p = j).
+Proof.
+  intros Hp d. set (n := length s) in *. pose proof (axes_perm_length _ _ Hp) as Hlp. split.
+  - intros i i' Hi Hi' E. rewrite <- (gather_scatter n p i Hp Hi), <- (gather_scatter n p i' Hp Hi'). now rewrite E.
+  - intros j Hj. apply inb_nth in Hj as [Hlj Hjn]. fold n in Hlj, Hjn.
+    set (q := map (norm_ax (Z.of_nat n)) p).
+    exists (gather_q q j). split; [|now apply scatter_gather].
+    assert (Hlq : length q = n) by apply Hp.
+    apply inb_nth. unfold d. split.
+    + unfold gather_q. simpl. now rewrite !map_length, !seq_length.
+    + simpl. rewrite map_length, seq_length. fold n. intros k Hk.
+      unfold gather_q. rewrite Hlq, !nth_map_seq by assumption.
+      unfold at_neg. rewrite at_pos_norm. unfold zlen. fold n.
+      rewrite <- nth_norm by lia. fold q. unfold znth. apply Hjn.
+      destruct Hp as [_ [Hr _]]. specialize (Hr k Hk). fold q in Hr. lia.
+Qed.
+
+(* ---- transpose by p and then by the inverse of p ---- *)
+Lemma inv_perm_perm n q : perm n q -> perm n (inv_perm q) /\
+  forall k, (k < n)%nat -> nth (Z.to_nat (nth k q 0)) (inv_perm q) 0 = Z.of_nat k.
+Proof.
+  intros Hp. pose proof Hp as [Hl [Hr Hn]]. unfold inv_perm. rewrite Hl.
+  assert (Hnth : forall m, (m < n)%nat -> nth m (map (fun m0 => Z.of_nat (find_pos m0 q)) (zs n)) 0 = Z.of_nat (find_pos (Z.of_nat m) q)).
+  { intros m Hm. unfold zs. rewrite map_map. now rewrite nth_map_seq. }
+  split; [split; [|split]|].
+  - now rewrite map_length, zs_length.
+  - intros k Hk. rewrite Hnth by assumption. destruct (perm_surj n q Hp k Hk). lia.
+  - apply (NoDup_nth _ 0). rewrite map_length, zs_length. intros i j Hi Hj E.
+    rewrite !Hnth in E by assumption.
+    destruct (perm_surj n q Hp i Hi) as [_ Ei]. destruct (perm_surj n q Hp j Hj) as [_ Ej].
+    assert (E' : find_pos (Z.of_nat i) q = find_pos (Z.of_nat j) q) by lia.
+    rewrite E' in Ei. rewrite Ei in Ej. lia.
+  - intros k Hk. specialize (Hr k Hk). rewrite Hnth by lia.
+    rewrite Z2Nat.id by lia. now rewrite (find_pos_nth n q k Hp Hk).
+Qed.
+
+Lemma norm_ax_id n q : (forall x, In x q -> 0 <= x) -> map (norm_ax n) q = q.
+Proof.
+  intros H. rewrite <- (map_id q) at 2. apply map_ext_in. intros x Hx. specialize (H x Hx).
+  unfold norm_ax. destruct (Z.ltb_spec x 0); lia.
+Qed.
+
+Lemma perm_axes_perm n q : perm n q -> axes_perm n q.
+Proof.
+  intros Hp. unfold axes_perm. rewrite norm_ax_id; [assumption|].
+  intros x Hx. destruct Hp as [Hl [Hr _]]. apply (In_nth _ _ 0) in Hx as [k [Hk <-]]. specialize (Hr k ltac:(lia)). lia.
+Qed.
+
+(* the outer view transposes t = transpose(a,p) by the inverse of p: element i of the result is
+   t[scatter i (inv p)] = a[scatter (scatter i (inv p)) p] = a[i], and the shape is restored *)
+Lemma transpose_inverse s p i : axes_perm (length s) p -> length i = length s ->
+  let q := map (norm_ax (zlen s)) p in
+  shape_transpose (shape_transpose s (Some p)) (Some (inv_perm q)) = s
+  /\ transpose_index (Some p) (transpose_index (Some (inv_perm q)) i) = i.
+Proof.
+  intros Hp Hi q. set (n := length s) in *. unfold zlen in q. fold n in q.
+  pose proof (axes_perm_length _ _ Hp) as Hlp.
+  assert (Hpq : perm n q) by exact Hp. assert (Hlq' : length q = n) by apply Hpq.
+  destruct (inv_perm_perm n q Hp) as [Hip Hinv].
+  pose proof (perm_axes_perm _ _ Hip) as Hiap.
+  assert (Hnq : map (norm_ax (Z.of_nat n)) (inv_perm q) = inv_perm q).
+  { apply norm_ax_id. intros x Hx. destruct Hip as [Hl [Hr _]]. apply (In_nth _ _ 0) in Hx as [k [Hk <-]]. specialize (Hr k ltac:(lia)). lia. }
+  assert (Hld : length (shape_transpose s (Some p)) = n) by (simpl; now rewrite map_length, seq_length).
+  split.
+  - symmetry. simpl. rewrite map_length, seq_length. fold n. apply map_seq_nth_ext; [reflexivity|].
+    intros m Hm. unfold at_neg. rewrite at_pos_norm. unfold zlen. rewrite map_length, seq_length. fold n.
+    rewrite <- nth_norm by (destruct Hip; lia). rewrite Hnq.
+    destruct Hip as [Hlq [Hrq _]]. pose proof (Hrq m Hm) as Hrm.
+    unfold znth. rewrite nth_map_seq by lia.
+    unfold at_neg. rewrite at_pos_norm. unfold zlen. fold n.
+    rewrite <- nth_norm by lia. fold q.
+    (* q[inv q[m]] = m *)
+    unfold inv_perm. rewrite Hlq'.
+    unfold zs. rewrite map_map, nth_map_seq by assumption. rewrite Nat2Z.id.
+    destruct (perm_surj n q Hpq m Hm) as [_ E]. rewrite E. unfold znth. now rewrite Nat2Z.id.
+  - simpl. apply nth_ext with (d := 0) (d' := 0); [now rewrite !scatter_length|].
+    intros m Hm. rewrite !scatter_length in Hm. rewrite Hi in Hm.
+    assert (Hl1 : length (scatter i (inv_perm q)) = n) by now rewrite scatter_length.
+    rewrite (scatter_at n _ p Hp Hl1 m Hm). fold q.
+    destruct (perm_surj n q Hp m Hm) as [Hk Hq]. set (k := find_pos (Z.of_nat m) q) in *.
+    (* (scatter i (inv q))[k] where k = inv q[m]  is  i[m] *)
+    assert (Ek : Z.of_nat k = nth m (inv_perm q) 0).
+    { unfold inv_perm. rewrite Hlq'. unfold zs. rewrite map_map, nth_map_seq by assumption. reflexivity. }
+    pose proof (scatter_nth n i (inv_perm q) Hiap Hi m Hm) as Hs. rewrite Hnq, <- Ek, Nat2Z.id in Hs. exact Hs.
+Qed.
+
+Lemma transpose_default_involutive s i :
+  shape_transpose (shape_transpose s None) None = s /\ transpose_index None (transpose_index None i) = i.
+Proof. simpl. rewrite !reverse_eq_rev, !rev_involutive. split; reflexivity. Qed.
+
+(* ===================================================================== flip *)
+
+Fixpoint flip_from (ax : axarg) (c : Z) (s i : list Z) : list Z :=
+  match s, i with
+  | n :: s', x :: i' => (if in_axis ax c then n - 1 - x else x) :: flip_from ax (c + 1) s' i'
+  | _, _ => []
+  end.
+
+Lemma flip_steps_index_from ax s : forall i c,
+  slice_steps_index (flip_steps_from ax c (length s)) s i = flip_from ax c s i.
+Proof.
+  induction s as [|n s IH]; intros [|x i] c; simpl; try reflexivity.
+  rewrite IH. destruct (in_axis ax c); reflexivity.
+Qed.
+
+Lemma flip_index_from ax s i : flip_index ax s i = flip_from ax 0 s i.
+Proof. unfold flip_index, flip_slices, zlen. rewrite Nat2Z.id. apply flip_steps_index_from. Qed.
+
+Lemma flip_from_length ax s : forall i c, length i = length s -> length (flip_from ax c s i) = length s.
+Proof. induction s as [|n s IH]; intros [|x i] c H; simpl in *; try discriminate; auto. Qed.
+
+Lemma nth_flip_from ax s : forall i c k, length i = length s -> (k < length s)%nat ->
+  nth k (flip_from ax c s i) 0 =
+  if in_axis ax (c + Z.of_nat k) then nth k s 0 - 1 - nth k i 0 else nth k i 0.
+Proof.
+  induction s as [|n s IH]; intros [|x i] c k Hl Hk; simpl in *; try discriminate; try lia.
+  destruct k as [|k].
+  - now rewrite Z.add_0_r.
+  - rewrite IH by lia. replace (c + 1 + Z.of_nat k) with (c + Z.pos (Pos.of_succ_nat k)) by lia. reflexivity.
+Qed.
+
+Lemma in_axis_np N ax k : (forall a, In a (axes_of ax) -> 0 <= a) -> in_axis ax k = np_flipped N ax k.
+Proof.
+  intros H. assert (E : forall a, In a (axes_of ax) -> norm_ax N a = a).
+  { intros a Ha. specialize (H a Ha). unfold norm_ax. destruct (Z.ltb_spec a 0); lia. }
+  destruct ax as [|a|l]; simpl in *.
+  - reflexivity.
+  - rewrite (E a) by auto. now rewrite orb_false_r.
+  - induction l as [|a l IH]; simpl; [reflexivity|].
+    rewrite (E a) by (simpl; auto). f_equal. apply IH; intros; [apply H | apply E]; simpl; auto.
+Qed.
+
+(* on non-negative axes flip reads NumPy's element *)
+Lemma flip_index_np ax s i : (forall a, In a (axes_of ax) -> 0 <= a) -> length i = length s ->
+  flip_index ax s i = np_flip_index ax s i.
+Proof.
+  intros Hax Hl. rewrite flip_index_from. unfold np_flip_index. rewrite Hl.
+  apply map_seq_nth_ext; [now apply flip_from_length|].
+  intros k Hk. rewrite nth_flip_from by assumption. rewrite Z.add_0_l. now rewrite (in_axis_np (zlen s)).
+Qed.
+
+Lemma flip_from_inb ax s i : inb i s -> forall c, inb (flip_from ax c s i) s.
+Proof.
+  induction 1 as [|x n i s Hx H IH]; intros c; simpl; constructor; auto.
+  destruct (in_axis ax c); lia.
+Qed.
+
+Lemma flip_inb ax s i : inb i s -> inb (flip_index ax s i) s.
+Proof. intros H. rewrite flip_index_from. now apply flip_from_inb. Qed.
+
+Lemma flip_from_involutive ax s : forall i c, length i = length s ->
+  flip_from ax c s (flip_from ax c s i) = i.
+Proof.
+  induction s as [|n s IH]; intros [|x i] c H; simpl in *; try discriminate; [reflexivity|].
+  rewrite IH by lia. f_equal. destruct (in_axis ax c); lia.
+Qed.
+
+(* flipping twice restores every index (for any axis argument, normalised or not) *)
+Lemma flip_flip ax s i : length i = length s -> flip_index ax s (flip_index ax s i) = i.
+Proof. intros H. rewrite !flip_index_from. now apply flip_from_involutive. Qed.
+
+Lemma flip_negative_axis_refuted :
+  exists s ax i, np_flip_ok (length s) ax = true /\ inb i s /\ flip_index ax s i <> np_flip_index ax s i.
+Proof.
+  exists [2; 3], (AxOne (-1)), [0; 0]. split; [reflexivity|]. split; [repeat constructor; lia|].
+  vm_compute. discriminate.
+Qed.
+
+(* ===================================================================== reshape-based views *)
+
+Lemma pos_count0 dst : pos dst -> count_m1 dst = O.
+Proof.
+  unfold count_m1. induction 1 as [|d t Hd Ht IH]; simpl; [reflexivity|].
+  destruct (Z.eqb_spec d (-1)); [lia | assumption].
+Qed.
+
+(* a target without -1 whose element count matches is accepted as it is *)
+Lemma reshape_to_pos src dst : pos src -> prod src < 2 ^ 64 -> dst <> [] -> pos dst -> prod dst = prod src ->
+  shape_reshape src dst = Some dst.
+Proof.
+  intros Hs Hb Hne Hd Hp. destruct (known_all_of_count0 dst (pos_count0 dst Hd)) as [K _].
+  rewrite shape_reshape_np by (auto; rewrite K; lia).
+  unfold np_reshape_shape. rewrite K. replace (forallb (fun d => 1 <=? d) dst) with true by (symmetry; now apply forallb_pos).
+  rewrite Nat.sub_diag. now replace (prod dst =? prod src) with true by lia.
+Qed.
+
+(* ---- atleast_nd ---- *)
+Lemma shape_atleast_nd_np s nd : shape_atleast_nd s nd = np_atleast_shape s nd.
+Proof.
+  unfold shape_atleast_nd, np_atleast_shape, zlen. f_equal. f_equal.
+  destruct (Z.ltb_spec nd (Z.of_nat (length s))); lia.
+Qed.
+
+Lemma prod_repeat1 k s : prod (repeat 1 k ++ s) = prod s /\ (pos s -> pos (repeat 1 k ++ s)).
+Proof.
+  induction k as [|k [IH1 IH2]]; cbn [repeat app prod].
+  - split; [reflexivity | intros H; exact H].
+  - split; [lia|]. intros H. constructor; [lia | exact (IH2 H)].
+Qed.
+
+Lemma atleast_nd_accept_np nd s : pos s -> prod s < 2 ^ 64 -> np_atleast_shape s nd <> [] ->
+  atleast_nd_accept nd s = Some (np_atleast_shape s nd).
+Proof.
+  intros Hs Hb Hne. unfold atleast_nd_accept. rewrite shape_atleast_nd_np.
+  destruct (prod_repeat1 (Z.to_nat nd - length s) s) as [P1 P2].
+  apply reshape_to_pos; auto.
+Qed.
+
+(* ---- squeeze ---- *)
+Lemma squeeze_prod s : prod (shape_squeeze s) = prod s /\ (pos s -> pos (shape_squeeze s)).
+Proof.
+  unfold shape_squeeze. induction s as [|x s [IH1 IH2]]; [split; [reflexivity | intros H; exact H]|].
+  cbn [filter]. destruct (Z.eqb_spec x 1) as [->|Hne]; cbn [negb prod].
+  - split; [lia|]. intros H. apply IH2. now inversion H.
+  - split; [lia|]. intros H. inversion H; subst. constructor; [assumption | now apply IH2].
+Qed.
+
+Lemma squeeze_accept_np s : pos s -> prod s < 2 ^ 64 -> np_squeeze_shape s <> [] ->
+  squeeze_accept s = Some (np_squeeze_shape s) /\ remove_single_dims s = np_squeeze_shape s /\ squeeze_defined s = true.
+Proof.
+  intros Hs Hb Hne. destruct (squeeze_prod s) as [P1 P2].
+  assert (R : remove_single_dims s = np_squeeze_shape s).
+  { unfold remove_single_dims, np_squeeze_shape. apply filter_ext_in. intros x Hx.
+    unfold pos in Hs. rewrite Forall_forall in Hs. specialize (Hs x Hx). lia. }
+  split; [|split; [assumption|]].
+  - unfold squeeze_accept. apply reshape_to_pos; auto.
+  - unfold squeeze_defined. fold (remove_single_dims s). rewrite R. apply Nat.eqb_refl.
+Qed.
+
+Lemma zero_dim_result_refuted :
+  exists s, pos s /\ np_squeeze_shape s = [] /\ np_reshape_shape s [] = Some [] /\ squeeze_accept s = None /\ reshape_accept [] s = None.
+Proof. exists [1; 1]. repeat split; try reflexivity. repeat constructor; lia. Qed.
+
+(* ---- expand_dims ---- *)
+Lemma normalize_axes_ok axes N : forallb (fun a => (- N <=? a) && (a <? N)) axes = true ->
+  normalize_axes axes N = Some (map (norm_ax N) axes).
+Proof.
+  induction axes as [|a t IH]; simpl; [reflexivity|]. rewrite andb_true_iff. intros [Ha Ht].
+  rewrite IH by assumption. unfold normalize_axis. rewrite Ha. unfold norm_ax.
+  destruct (a <? 0); do 2 f_equal; lia.
+Qed.
+
+Lemma pigeonhole (l : list Z) lo hi : NoDup l -> (forall a, In a l -> lo <= a < hi) -> Z.of_nat (length l) <= Z.max 0 (hi - lo).
+Proof.
+  intros Hn Hr.
+  assert (Hm : NoDup (map (fun a => a - lo) l)).
+  { apply FinFun.Injective_map_NoDup; [|assumption]. intros a b. lia. }
+  assert (Hi : incl (map (fun a => a - lo) l) (zs (Z.to_nat (hi - lo)))).
+  { intros x Hx. apply in_map_iff in Hx as [a [<- Ha]]. apply in_zs. specialize (Hr a Ha). lia. }
+  pose proof (NoDup_incl_length Hm Hi) as H. rewrite map_length, zs_length in H. lia.
+Qed.
+
+Definition cnt (f : Z -> bool) (l : list Z) : Z := zlen (filter f l).
+
+Lemma cnt_cons f a l : cnt f (a :: l) = (if f a then 1 else 0) + cnt f l.
+Proof. unfold cnt, zlen. cbn [filter]. destruct (f a); cbn [length]; lia. Qed.
+
+Lemma cnt_lt_succ na c : NoDup na ->
+  count_lt na (c + 1) = count_lt na c + (if existsb (Z.eqb c) na then 1 else 0).
+Proof.
+  unfold count_lt. fold (cnt (fun a => a <? c + 1) na). fold (cnt (fun a => a <? c) na).
+  induction 1 as [|a l Ha Hl IH]; [reflexivity|]. rewrite !cnt_cons, IH. simpl.
+  destruct (Z.eqb_spec c a) as [->|Hne]; simpl.
+  - assert (E : existsb (Z.eqb a) l = false).
+    { apply Bool.not_true_is_false. intros H. apply existsb_exists in H as [y [Hy E]]. apply Z.eqb_eq in E. subst. contradiction. }
+    rewrite E. destruct (Z.ltb_spec a (a + 1)); destruct (Z.ltb_spec a a); lia.
+  - destruct (Z.ltb_spec a (c + 1)); destruct (Z.ltb_spec a c); destruct (existsb (Z.eqb c) l); lia.
+Qed.
+
+Lemma cnt_ge_succ na c : NoDup na ->
+  cnt (fun a => c <=? a) na = cnt (fun a => c + 1 <=? a) na + (if existsb (Z.eqb c) na then 1 else 0).
+Proof.
+  induction 1 as [|a l Ha Hl IH]; [reflexivity|]. rewrite !cnt_cons, IH. simpl.
+  destruct (Z.eqb_spec c a) as [->|Hne]; simpl.
+  - assert (E : existsb (Z.eqb a) l = false).
+    { apply Bool.not_true_is_false. intros H. apply existsb_exists in H as [y [Hy E]]. apply Z.eqb_eq in E. subst. contradiction. }
+    rewrite E. destruct (Z.leb_spec a a); destruct (Z.leb_spec (a + 1) a); lia.
+  - destruct (Z.leb_spec c a); destruct (Z.leb_spec (c + 1) a); destruct (existsb (Z.eqb c) l); lia.
+Qed.
+
+Lemma count_lt_le na c : NoDup na -> (forall a, In a na -> 0 <= a) -> 0 <= c -> 0 <= count_lt na c <= c.
+Proof.
+  intros Hn Hr Hc. unfold count_lt, zlen. split; [lia|].
+  assert (H := pigeonhole (filter (fun a => a <? c) na) 0 c (NoDup_filter _ Hn)).
+  rewrite Z.sub_0_r, Z.max_r in H by lia. apply H.
+  intros a Ha. apply filter_In in Ha as [Ha1 Ha2]. specialize (Hr a Ha1). lia.
+Qed.
+
+Lemma skipn_hd (s : list Z) k : skipn k s = match skipn k s with [] => [] | _ :: _ => nth k s 0 :: skipn (S k) s end.
+Proof.
+  revert s. induction k as [|k IH]; intros [|x s]; simpl; try reflexivity. apply IH.
+Qed.
+
+Lemma skipn_nil_nth (s : list Z) k : skipn k s = [] -> nth k s 0 = 0 /\ skipn (S k) s = [].
+Proof.
+  revert s. induction k as [|k IH]; intros [|x s]; simpl; intros H; try discriminate.
+  - split; reflexivity.
+  - split; reflexivity.
+  - apply IH. exact H.
+Qed.
+
+(* the loop of shape_expand_dims computes NumPy's position formula *)
+Lemma expand_walk_formula s na : NoDup na -> (forall a, In a na -> 0 <= a) -> forall fuel c, 0 <= c ->
+  expand_walk fuel c na (skipn (Z.to_nat (c - count_lt na c)) s) =
+  map (fun p => if existsb (Z.eqb p) na then 1 else znth s (p - count_lt na p)) (map (fun k => c + Z.of_nat k) (seq 0 fuel)).
+Proof.
+  intros Hn Hr. induction fuel as [|f IH]; intros c Hc; [reflexivity|].
+  pose proof (count_lt_le na c Hn Hr Hc) as Hle.
+  cbn [expand_walk seq map]. rewrite Z.add_0_r.
+  assert (Hshift : map (fun k => c + Z.of_nat k) (seq 1 f) = map (fun k => c + 1 + Z.of_nat k) (seq 0 f)).
+  { rewrite <- seq_shift, map_map. apply map_ext. intros k. lia. }
+  rewrite Hshift. specialize (IH (c + 1) ltac:(lia)). rewrite cnt_lt_succ in IH by assumption.
+  destruct (existsb (Z.eqb c) na) eqn:E.
+  - f_equal. rewrite <- IH. do 2 f_equal. lia.
+  - rewrite Z.add_0_r in IH.
+    replace (Z.to_nat (c + 1 - count_lt na c)) with (S (Z.to_nat (c - count_lt na c))) in IH by lia.
+    set (k := Z.to_nat (c - count_lt na c)) in *.
+    assert (Ez : znth s (c - count_lt na c) = nth k s 0) by reflexivity. rewrite Ez.
+    destruct (skipn k s) as [|h t] eqn:Es.
+    + destruct (skipn_nil_nth s k Es) as [E0 E1]. rewrite E0. f_equal. rewrite <- IH, E1. reflexivity.
+    + rewrite skipn_hd in Es. destruct (skipn k s); [discriminate|]. injection Es as <- <-. f_equal. apply IH.
+Qed.
+
+Lemma existsb_norm_in N axes p : existsb (Z.eqb p) (map (norm_ax N) axes) = existsb (Z.eqb p) (map (norm_ax N) axes).
+Proof. reflexivity. Qed.
+
+Definition expand_ok_prop (n : nat) (ax : axarg) : Prop :=
+  let N := Z.of_nat n + zlen (axes_of ax) in
+  let na := map (norm_ax N) (axes_of ax) in
+  normalize_axes (axes_of ax) N = Some na /\ NoDup na /\ (forall a, In a na -> 0 <= a < N) /\ axes_of ax <> [].
+
+Lemma np_expand_dims_ok_prop n ax : np_expand_dims_ok n ax = true -> expand_ok_prop n ax.
+Proof.
+  unfold np_expand_dims_ok, expand_ok_prop. rewrite !andb_true_iff, negb_true_iff, Nat.eqb_neq, nodupb_NoDup.
+  intros [[Hr Hn] Hne]. split; [now apply normalize_axes_ok|]. split; [assumption|]. split.
+  - intros a Ha. apply in_map_iff in Ha as [x [<- Hx]]. rewrite forallb_forall in Hr. specialize (Hr x Hx).
+    unfold norm_ax. destruct (Z.ltb_spec x 0); lia.
+  - intros E. apply Hne. now rewrite E.
+Qed.
+
+Lemma shape_expand_dims_np s ax : np_expand_dims_ok (length s) ax = true ->
+  shape_expand_dims s ax = np_expand_dims_shape s ax /\ expand_dims_defined ax s = true.
+Proof.
+  intros Hok. apply np_expand_dims_ok_prop in Hok as [Hna [Hn [Hr _]]].
+  unfold shape_expand_dims, np_expand_dims_shape, expand_dims_defined.
+  change (zlen s) with (Z.of_nat (length s)). rewrite Hna.
+  split; [|now apply nodupb_NoDup].
+  set (N := Z.of_nat (length s) + zlen (axes_of ax)) in *. set (na := map (norm_ax N) (axes_of ax)) in *.
+  assert (Hr0 : forall a, In a na -> 0 <= a) by (intros a Ha; specialize (Hr a Ha); lia).
+  pose proof (expand_walk_formula s na Hn Hr0 (Z.to_nat N) 0 ltac:(lia)) as H.
+  assert (E0 : count_lt na 0 = 0).
+  { pose proof (count_lt_le na 0 Hn Hr0 ltac:(lia)). lia. }
+  rewrite E0 in H. simpl in H. rewrite H. unfold zrange, zs. f_equal.
+Qed.
+
+(* the walk uses up the source shape exactly: same product, positivity, same non-unit extents *)
+Lemma expand_walk_consumes na : NoDup na -> forall fuel c sh,
+  (forall a, In a na -> a < c + Z.of_nat fuel) ->
+  zlen sh + cnt (fun a => c <=? a) na = Z.of_nat fuel ->
+  prod (expand_walk fuel c na sh) = prod sh
+  /\ (pos sh -> pos (expand_walk fuel c na sh))
+  /\ shape_squeeze (expand_walk fuel c na sh) = shape_squeeze sh.
+Proof.
+  intros Hn. induction fuel as [|f IH]; intros c sh Hhi Hcnt.
+  - destruct sh as [|z sh]; [simpl; auto|]. exfalso. unfold cnt, zlen in Hcnt. cbn [length] in Hcnt. lia.
+  - cbn [expand_walk]. rewrite (cnt_ge_succ na c Hn) in Hcnt.
+    destruct (existsb (Z.eqb c) na) eqn:E.
+    + destruct (IH (c + 1) sh) as [I1 [I2 I3]]; [intros a Ha; specialize (Hhi a Ha); lia | lia |].
+      split; [cbn [prod]; lia|]. split; [intros H; constructor; [lia | exact (I2 H)]|].
+      unfold shape_squeeze in *. simpl. exact I3.
+    + destruct sh as [|h t].
+      * exfalso. rewrite Z.add_0_r in Hcnt. unfold zlen in Hcnt at 1. simpl in Hcnt.
+        assert (P := pigeonhole (filter (fun a => c + 1 <=? a) na) (c + 1) (c + Z.of_nat (S f)) (NoDup_filter _ Hn)).
+        unfold cnt, zlen in Hcnt. rewrite Z.max_r in P by lia.
+        assert (Z.of_nat (length (filter (fun a => c + 1 <=? a) na)) <= c + Z.of_nat (S f) - (c + 1)).
+        { apply P. intros a Ha. apply filter_In in Ha as [Ha1 Ha2]. specialize (Hhi a Ha1). lia. }
+        lia.
+      * destruct (IH (c + 1) t) as [I1 [I2 I3]]; [intros a Ha; specialize (Hhi a Ha); lia | unfold cnt, zlen in *; cbn [length] in Hcnt; lia |].
+        split; [cbn [prod]; lia|]. split; [intros H; inversion H as [|? ? Hh Ht]; subst; constructor; [exact Hh | exact (I2 Ht)]|].
+        unfold shape_squeeze in *. simpl. destruct (h =? 1); simpl; now rewrite I3.
+Qed.
+
+Lemma filter_all {A} (f : A -> bool) l : (forall a, In a l -> f a = true) -> filter f l = l.
+Proof.
+  induction l as [|x l IH]; simpl; intros H; [reflexivity|].
+  rewrite (H x (or_introl eq_refl)). f_equal. apply IH. intros a Ha. apply H. now right.
+Qed.
+
+Lemma expand_dims_consumes s ax : np_expand_dims_ok (length s) ax = true ->
+  prod (shape_expand_dims s ax) = prod s /\ (pos s -> pos (shape_expand_dims s ax))
+  /\ shape_squeeze (shape_expand_dims s ax) = shape_squeeze s /\ shape_expand_dims s ax <> [].
+Proof.
+  intros Hok. apply np_expand_dims_ok_prop in Hok as [Hna [Hn [Hr Hne]]].
+  unfold shape_expand_dims. change (zlen s) with (Z.of_nat (length s)). rewrite Hna.
+  set (N := Z.of_nat (length s) + zlen (axes_of ax)) in *. set (na := map (norm_ax N) (axes_of ax)) in *.
+  assert (HN : 0 < N) by (unfold N, zlen; destruct (axes_of ax); [congruence | simpl; lia]).
+  destruct (expand_walk_consumes na Hn (Z.to_nat N) 0 s) as [I1 [I2 I3]].
+  - intros a Ha. specialize (Hr a Ha). lia.
+  - assert (E : cnt (fun a => 0 <=? a) na = zlen na).
+    { unfold cnt. f_equal. apply filter_all. intros a Ha. specialize (Hr a Ha). lia. }
+    rewrite E. unfold na, zlen. rewrite map_length. unfold N, zlen. lia.
+  - repeat split; auto. destruct (Z.to_nat N) eqn:EN; [lia|]. cbn [expand_walk].
+    destruct (existsb (Z.eqb 0) na); [discriminate|]. destruct s; discriminate.
+Qed.
+
+Lemma expand_dims_accept_np ax s : pos s -> prod s < 2 ^ 64 -> np_expand_dims_ok (length s) ax = true ->
+  expand_dims_accept ax s = Some (np_expand_dims_shape s ax).
+Proof.
+  intros Hs Hb Hok. destruct (shape_expand_dims_np s ax Hok) as [E _].
+  destruct (expand_dims_consumes s ax Hok) as [P1 [P2 [_ P4]]].
+  unfold expand_dims_accept. rewrite <- E. apply reshape_to_pos; auto.
+Qed.
+
+(* squeeze after expand_dims: the shape is the squeezed source shape (the source shape itself
+   when it has no unit extents) and every index is read from itself *)
+Lemma squeeze_expand_dims ax s i : pos s -> prod s < 2 ^ 64 -> np_expand_dims_ok (length s) ax = true ->
+  shape_squeeze s = s -> s <> [] -> inb i s ->
+  let d1 := np_expand_dims_shape s ax in
+  expand_dims_accept ax s = Some d1 /\ squeeze_accept d1 = Some s
+  /\ reshape_index s d1 (reshape_index d1 s i) = i.
+Proof.
+  intros Hs Hb Hok Hsq Hne Hi d1.
+  destruct (shape_expand_dims_np s ax Hok) as [E _].
+  destruct (expand_dims_consumes s ax Hok) as [P1 [P2 [P3 P4]]]. rewrite E in *. fold d1 in P1, P2, P3, P4.
+  split; [now apply expand_dims_accept_np|]. split.
+  - unfold squeeze_accept. rewrite P3, Hsq. apply reshape_to_pos; auto; lia.
+  - apply reshape_roundtrip; auto.
+Qed.
+
+(* ===================================================================== swapaxes *)
+
+Lemma swap_pos_invol m1 m2 k : swap_pos m1 m2 (swap_pos m1 m2 k) = k.
+Proof.
+  unfold swap_pos.
+  destruct (Nat.eqb_spec k m1); destruct (Nat.eqb_spec k m2); subst;
+    repeat match goal with |- context [Nat.eqb ?a ?b] => destruct (Nat.eqb_spec a b) end; congruence.
+Qed.
+
+Lemma swap_pos_lt m1 m2 k n : (m1 < n)%nat -> (m2 < n)%nat -> (k < n)%nat -> (swap_pos m1 m2 k < n)%nat.
+Proof. unfold swap_pos. intros. destruct (k =? m1)%nat; [assumption|]. destruct (k =? m2)%nat; assumption. Qed.
+
+Lemma normalize_axis_ok a N : (- N <=? a) && (a <? N) = true ->
+  normalize_axis a N = Some (norm_ax N a) /\ 0 <= norm_ax N a < N.
+Proof.
+  intros H. unfold normalize_axis, norm_ax. rewrite H. apply andb_prop in H as [H1 H2].
+  destruct (Z.ltb_spec a 0); split; try (f_equal; lia); lia.
+Qed.
+
+Lemma swapaxes_order_spec n a1 a2 : np_swapaxes_ok n a1 a2 = true ->
+  let N := Z.of_nat n in
+  let m1 := Z.to_nat (norm_ax N a1) in let m2 := Z.to_nat (norm_ax N a2) in
+  swapaxes_to_transpose N a1 a2 = map (fun k => Z.of_nat (swap_pos m1 m2 k)) (seq 0 n)
+  /\ (m1 < n)%nat /\ (m2 < n)%nat.
+Proof.
+  intros H. cbv zeta. set (N := Z.of_nat n). set (m1 := Z.to_nat (norm_ax N a1)). set (m2 := Z.to_nat (norm_ax N a2)).
+  unfold np_swapaxes_ok in H. cbv zeta in H. fold N in H.
+  assert (H1 : (- N <=? a1) && (a1 <? N) = true) by (destruct (- N <=? a1), (a1 <? N); simpl in *; congruence).
+  assert (H2 : (- N <=? a2) && (a2 <? N) = true) by (destruct (- N <=? a1), (a1 <? N), (- N <=? a2), (a2 <? N); simpl in *; congruence).
+  destruct (normalize_axis_ok a1 N H1) as [E1 R1]. destruct (normalize_axis_ok a2 N H2) as [E2 R2].
+  assert (L1 : (m1 < n)%nat) by (unfold m1, N in *; lia). assert (L2 : (m2 < n)%nat) by (unfold m2, N in *; lia).
+  split; [|split; assumption].
+  unfold swapaxes_to_transpose. rewrite E1, E2. fold m1 m2.
+  assert (Hlr : length (zrange N) = n) by (unfold zrange, N; now rewrite zs_length, Nat2Z.id).
+  apply map_seq_nth_ext; [now rewrite !upd_length|].
+  intros k Hk. rewrite !nth_upd by (rewrite ?upd_length; lia).
+  unfold znth. fold m1 m2. unfold zrange. replace (Z.to_nat N) with n by (unfold N; lia). rewrite !nth_zs by lia. unfold swap_pos.
+  destruct (Nat.eqb_spec k m2); destruct (Nat.eqb_spec k m1); try reflexivity; lia.
+Qed.
+
+Lemma swap_perm n m1 m2 : (m1 < n)%nat -> (m2 < n)%nat ->
+  perm n (map (fun k => Z.of_nat (swap_pos m1 m2 k)) (seq 0 n)).
+Proof.
+  intros L1 L2. split; [now rewrite map_length, seq_length|]. split.
+  - intros k Hk. rewrite nth_map_seq by assumption. pose proof (swap_pos_lt m1 m2 k n L1 L2 Hk). lia.
+  - apply (NoDup_nth _ 0). rewrite map_length, seq_length. intros i j Hi Hj E.
+    rewrite !nth_map_seq in E by assumption. apply Nat2Z.inj in E.
+    rewrite <- (swap_pos_invol m1 m2 i), <- (swap_pos_invol m1 m2 j). now rewrite E.
+Qed.
+
+(* swapaxes = transpose by the transposition of the two normalised axes: NumPy's shape and element *)
+Lemma swapaxes_np a1 a2 s i : np_swapaxes_ok (length s) a1 a2 = true -> length i = length s ->
+  swapaxes_accept a1 a2 s = Some (np_swap s a1 a2)
+  /\ swapaxes_index a1 a2 s i = np_swap i a1 a2
+  /\ swapaxes_defined a1 a2 s = true
+  /\ axes_perm (length s) (swapaxes_to_transpose (zlen s) a1 a2).
+Proof.
+  intros Hok Hi. set (n := length s) in *.
+  destruct (swapaxes_order_spec n a1 a2 Hok) as [Eo [L1 L2]]. cbv zeta in Eo.
+  set (m1 := Z.to_nat (norm_ax (Z.of_nat n) a1)) in *. set (m2 := Z.to_nat (norm_ax (Z.of_nat n) a2)) in *.
+  set (sg := map (fun k => Z.of_nat (swap_pos m1 m2 k)) (seq 0 n)) in *.
+  pose proof (swap_perm n m1 m2 L1 L2) as Hp. fold sg in Hp.
+  pose proof (perm_axes_perm _ _ Hp) as Hap.
+  assert (Hnq : map (norm_ax (Z.of_nat n)) sg = sg).
+  { apply norm_ax_id. intros x Hx. destruct Hp as [Hl [Hr _]]. apply (In_nth _ _ 0) in Hx as [k [Hk <-]]. specialize (Hr k ltac:(lia)). lia. }
+  unfold swapaxes_accept, swapaxes_index, swapaxes_defined, zlen. fold n. rewrite Eo. fold sg.
+  split; [|split; [|split]].
+  - f_equal. simpl. fold n. unfold np_swap, zlen. fold n m1 m2. apply map_ext_in. intros k Hk. apply in_seq in Hk.
+    unfold sg. rewrite nth_map_seq by lia. unfold at_neg, at_pos, znth, zlen.
+    destruct (Z.ltb_spec (Z.of_nat (swap_pos m1 m2 k)) 0); [lia|]. now rewrite Nat2Z.id.
+  - unfold np_swap, zlen. rewrite Hi. fold n m1 m2. apply map_seq_nth_ext; [now rewrite scatter_length|].
+    intros m Hm. rewrite (scatter_at n i sg Hap Hi m Hm), Hnq. f_equal.
+    pose proof (swap_pos_lt m1 m2 m n L1 L2 Hm) as Hs.
+    rewrite <- (find_pos_nth n sg (swap_pos m1 m2 m) Hp Hs). f_equal.
+    unfold sg. rewrite nth_map_seq by assumption. now rewrite swap_pos_invol.
+  - unfold np_swapaxes_ok in Hok. fold n in Hok.
+    assert (H1 : (- Z.of_nat n <=? a1) && (a1 <? Z.of_nat n) = true) by (destruct (- Z.of_nat n <=? a1), (a1 <? Z.of_nat n); simpl in *; congruence).
+    assert (H2 : (- Z.of_nat n <=? a2) && (a2 <? Z.of_nat n) = true) by (destruct (- Z.of_nat n <=? a1), (a1 <? Z.of_nat n), (- Z.of_nat n <=? a2), (a2 <? Z.of_nat n); simpl in *; congruence).
+    destruct (normalize_axis_ok a1 _ H1) as [-> _]. destruct (normalize_axis_ok a2 _ H2) as [-> _]. reflexivity.
+  - exact Hap.
+Qed.
+
+(* ===================================================================== the views permute the source elements *)
+
+Lemma NoDup_map_inj_in {A B} (f : A -> B) l : NoDup l ->
+  (forall x y, In x l -> In y l -> f x = f y -> x = y) -> NoDup (map f l).
+Proof.
+  induction 1 as [|a l Ha Hl IH]; intros Hinj; simpl; constructor.
+  - intros Hin. apply in_map_iff in Hin as [y [E Hy]]. apply Ha.
+    rewrite (Hinj a y); auto; [now left | now right].
+  - apply IH. intros x y Hx Hy. apply Hinj; now right.
+Qed.
+
+Lemma shape_transpose_pos s axes : pos s -> np_transpose_ok (length s) axes = true -> pos (shape_transpose s axes).
+Proof.
+  intros Hs Hok. destruct axes as [p|]; simpl in *.
+  - apply np_axes_ok_perm in Hok. pose proof (axes_perm_length _ _ Hok) as Hlp.
+    apply pos_nth. rewrite map_length, seq_length. intros k Hk. rewrite nth_map_seq by assumption.
+    unfold at_neg. rewrite at_pos_norm. unfold zlen. rewrite <- nth_norm by lia.
+    destruct Hok as [_ [Hr _]]. specialize (Hr k Hk). unfold znth.
+    rewrite pos_nth in Hs. apply Hs. lia.
+  - rewrite reverse_eq_rev. now apply pos_rev.
+Qed.
+
+(* reading the whole result through the view visits every source index exactly once *)
+Lemma transpose_permutes s axes : pos s -> np_transpose_ok (length s) axes = true ->
+  Permutation (map (transpose_index axes) (lex_enum (shape_transpose s axes))) (lex_enum s).
+Proof.
+  intros Hs Hok. pose proof (shape_transpose_pos s axes Hs Hok) as Hd.
+  assert (Hinj : forall i i', inb i (shape_transpose s axes) -> inb i' (shape_transpose s axes) ->
+                   transpose_index axes i = transpose_index axes i' -> i = i').
+  { intros i i' Hi Hi' E. apply inb_length in Hi, Hi'.
+    destruct axes as [p|]; simpl in *.
+    - apply np_axes_ok_perm in Hok. rewrite map_length, seq_length in Hi, Hi'.
+      now apply (proj1 (transpose_bijection_axes s p Hok)).
+    - rewrite !reverse_eq_rev in E. now apply rev_inj. }
+  apply NoDup_Permutation.
+  - apply NoDup_map_inj_in; [apply NoDup_lex_enum|].
+    intros x y Hx Hy. apply in_lex_enum in Hx, Hy; auto.
+  - apply NoDup_lex_enum.
+  - intros j. rewrite in_map_iff, (in_lex_enum s Hs). split.
+    + intros [i [<- Hi]]. apply in_lex_enum in Hi; [|assumption]. now apply transpose_inb.
+    + intros Hj. destruct axes as [p|].
+      * pose proof Hok as Hok'. simpl in Hok'. apply np_axes_ok_perm in Hok'.
+        destruct (proj2 (transpose_bijection_axes s p Hok') j Hj) as [i [Hi E]].
+        exists i. split; [exact E | now apply in_lex_enum].
+      * exists (rev j). simpl. rewrite !reverse_eq_rev, rev_involutive. split; [reflexivity|].
+        apply in_lex_enum; [now apply pos_rev | now apply inb_rev].
+Qed.
+
+(* reshape (hence flatten, expand_dims, squeeze, atleast_nd) enumerates the source in C order *)
+Lemma reshape_enumerates src d : pos src -> pos d -> prod d = prod src ->
+  map (reshape_index src d) (lex_enum d) = lex_enum src.
+Proof.
+  intros Hs Hd Hp. rewrite <- (ndindex_is_lex_enum d Hd), <- (ndindex_is_lex_enum src Hs), map_map.
+  unfold ndindex_size. rewrite !product_eq_prod, Hp. apply map_ext_in. intros k Hk.
+  unfold zrange in Hk. apply in_zs in Hk. pose proof (prod_pos _ Hs).
+  unfold reshape_index, ndindex. rewrite off_unrav by (auto; lia). reflexivity.
+Qed.
+
+(* ===================================================================== in-bounds lemmas (cited by C02) *)
+
+(* every reshape-based view reads inside a source with positive extents, whatever the target *)
+Lemma reshape_index_inb src d i : pos src -> inb (reshape_index src d i) src.
+Proof. intros Hs. unfold reshape_index. now apply unrav_inb. Qed.
+
+Lemma flatten_inb src d i : flatten_accept src = Some d -> pos src -> inb i d -> inb (reshape_index src d i) src.
+Proof. intros _ Hs _. now apply reshape_index_inb. Qed.
+Lemma expand_dims_inb ax src d i : expand_dims_accept ax src = Some d -> pos src -> inb i d -> inb (reshape_index src d i) src.
+Proof. intros _ Hs _. now apply reshape_index_inb. Qed.
+Lemma squeeze_inb src d i : squeeze_accept src = Some d -> pos src -> inb i d -> inb (reshape_index src d i) src.
+Proof. intros _ Hs _. now apply reshape_index_inb. Qed.
+Lemma atleast_nd_inb nd src d i : atleast_nd_accept nd src = Some d -> pos src -> inb i d -> inb (reshape_index src d i) src.
+Proof. intros _ Hs _. now apply reshape_index_inb. Qed.
+
+Lemma swapaxes_inb a1 a2 src i : np_swapaxes_ok (length src) a1 a2 = true -> pos src ->
+  inb i (shape_transpose src (Some (swapaxes_to_transpose (zlen src) a1 a2))) -> inb (swapaxes_index a1 a2 src i) src.
+Proof.
+  intros Hok _ Hi. pose proof (inb_length _ _ Hi) as Hl. simpl in Hl. rewrite map_length, seq_length in Hl.
+  destruct (swapaxes_np a1 a2 src i Hok Hl) as [_ [_ [_ Hap]]].
+  unfold swapaxes_index.
+  apply (transpose_inb (Some (swapaxes_to_transpose (zlen src) a1 a2)) src i); [|assumption].
+  simpl. unfold np_axes_ok. apply andb_true_iff. split.
+  - apply forallb_forall. intros a Ha. destruct Hap as [Hlq [Hr _]]. rewrite map_length in Hlq.
+    apply (In_nth _ _ 0) in Ha as [k [Hk <-]]. specialize (Hr k ltac:(lia)). rewrite nth_norm in Hr by lia.
+    unfold norm_ax in Hr. destruct (Z.ltb_spec (nth k (swapaxes_to_transpose (zlen src) a1 a2) 0) 0); lia.
+  - now apply is_permb_perm.
+Qed.
+
+(* moveaxis: whenever the order it builds is a permutation the transpose facts apply *)
+Lemma moveaxis_inb sa da src d i : moveaxis_accept sa da src = Some d ->
+  (forall order, moveaxis_to_transpose (zlen src) sa da = Some order -> np_axes_ok (length src) order = true) ->
+  pos src -> inb i d -> inb (moveaxis_index sa da src i) src.
+Proof.
+  unfold moveaxis_accept, moveaxis_index. destruct (moveaxis_to_transpose (zlen src) sa da) as [order|]; [|discriminate].
+  intros H Hperm _ Hi. injection H as <-. apply (transpose_inb (Some order) src i); [|assumption].
+  simpl. now apply Hperm.
 Qed.
